@@ -152,11 +152,19 @@ def d3(ctx, F):
         if "StringCodec" in im["self"]:
             fu = b.calls_to("alloc::string::String::from_utf8")
             if ctx.check(len(fu) == 1, "C14.D3.string-checked", "string-decode:no-from_utf8", "StringCodec::decode validates with String::from_utf8", b.span):
+                # the error arm: `?`'s Break edge, the Err arm of an explicit match, or the Result returned as it is (map_err at most)
                 te = K.try_edges(b, fu[0])
-                okp = te is not None and te[1] is not None
+                err_arm = te[1] if te is not None else None
+                if err_arm is None:
+                    m = flow.switch_after_call(b, fu[0])
+                    if m and "Err" in m and "Ok" in m:
+                        err_arm = m["Err"]
+                okp = err_arm is not None
                 if okp:
-                    r = b.reachable(te[1])
+                    r = b.reachable(err_arm)
                     okp = not [1 for i, j, pl, rv, s in K.aggregates(b, "core::result::Result", r) if rv["variant"] == "Ok"]
+                elif fu[0].dest is not None:
+                    okp = 0 in flow.derived(b, {fu[0].dest["l"]}, calls={"core::result::Result::map_err"}) or (fu[0].dest["l"] == 0 and not fu[0].dest["p"])
                 ctx.check(okp, "C14.D3.string-checked", "string-decode:error-swallowed", "an invalid-UTF-8 error is propagated, never turned into a value", fu[0].span)
                 # whole buffer
                 idx = [c for c in b.calls() if strip_generics(c.callee) == "core::ops::index::Index::index"]
@@ -191,8 +199,9 @@ def decomp_whole_output(ctx, F, prefix="C14.D1"):
     impls = F.impls_of(DECOMPRESS)
     for im in sorted(impls, key=lambda i: i["self"]):
         b = F.body(im["items"]["decompress"])
-        bodies = [b] + F.closures_of(b)
-        ctx.touch(*bodies)
+        ib = F.inlined(b)            # helpers such as `read_all(decoder)` are looked through
+        bodies = [ib] + F.closures_of(b)
+        ctx.touch(b, *F.closures_of(b))
         name = im["self"].rsplit("::", 1)[-1]
         calls = [c for bd in bodies for c in bd.calls()]
         whole = [c for c in calls if c.name() in ("read_to_end", "decode_all", "copy", "read_to_string", "decompress_size_prepended")]
